@@ -5,7 +5,8 @@ from checks.common import *
 LEVEL = "proof"
 RULE = ("register with pw, log in with pw' != pw: near-miss pairs (every single-bit flip of a short password, proper "
         "prefixes/extensions, case change, empty vs non-empty, embedded/trailing NUL, trailing whitespace, 65535-byte "
-        "passwords differing in the last byte, 255/256 boundary pairs); distinct = distinct (suite, pw, pw')")
+        "passwords differing in the last byte, 255/256 boundary pairs); passwords of 65535 bytes (accepted) and beyond "
+        "(refused: model and code agree where; if accepted, their digests and truncations must not log in); distinct = distinct (suite, pw, pw')")
 ASSUMPTIONS = ["theorem holds up to explicit collision events (Bad) of HMAC/hash/expand, DESIGN.md 2.2"]
 
 
@@ -48,6 +49,27 @@ def wrong_pw(ctx, pw, pw2, idu, ids, context):
     ctx.expect(g.ok, "control: the login password itself registers and logs in")
 
 
+def overlong(ctx, n, idu, ids, context):
+    """passwords beyond what the OPRF can length-prefix (65535 bytes): the code refuses them (model and code must
+    agree where); were one accepted, nothing it could be confused with (its digests, its truncations) may log in"""
+    ctx.nontrivial = True
+    pw = bytes((i * 7 + n) % 251 for i in range(n))
+    f = honest_flow(ctx, pw, b"user", context, idu, ids, "~", stop_on_error=False, count=True)
+    if n > 65535:
+        ctx.expect(not f.ok, "a %d-byte password cannot be registered and used (the OPRF input is length-prefixed on 2 bytes)" % n)
+    else:
+        ctx.expect(f.ok, "a %d-byte password registers and logs in" % n)
+    if f.ok:
+        import hashlib
+        cands = [hashlib.sha256(pw).digest(), hashlib.sha384(pw).digest(), hashlib.sha512(pw).digest(), pw[:65535],
+                 pw[:n % 65536], pw[:-1], pw[1:]]
+        for c in cands:
+            if c == pw:
+                continue
+            g = honest_flow(ctx, pw, b"user", context, idu, ids, "~", stop_on_error=False, count=True, login_pw=c)
+            ctx.expect(not g.ok, "login with a %d-byte password related to the registered %d-byte one is refused" % (len(c), n))
+
+
 def cases(tier, seed):
     rnd = random.Random(seed)
     out = []
@@ -57,4 +79,8 @@ def cases(tier, seed):
             ids = [(None, None, None), (b"client", b"server", b"ctx")][i % 2]
             out.append(dict(cross=["login_finish", "srv_login_finish", "srv_reg_start"], cross_limit=60, script=wrong_pw, suite=s, seed=seed * 100000 + si * 1000 + i, mode="pattern+err",
                             params=dict(pw=a, pw2=b, idu=ids[0], ids=ids[1], context=ids[2])))
+        for j, n in enumerate([65536, 65535] + ([70000, 131072] if tier == "thorough" else [])):
+            ids = [(None, None, None), (b"client", b"server", b"ctx")][j % 2]
+            out.append(dict(script=overlong, suite=s, seed=seed * 100000 + si * 1000 + 900 + j, mode="pattern+err",
+                            params=dict(n=n, idu=ids[0], ids=ids[1], context=ids[2])))
     return out
